@@ -63,6 +63,12 @@ def Cst.lexM : Cst → List Lex
   | .set r _ its _ => recLex r ++ .tok ['{'] :: its.lexM ++ [.tok ['}']]
   | .paren its _ => .tok ['('] :: its.lexM ++ [.tok [')']]
   | .app f cs _ a => f.lexM ++ ncm cs ++ a.lexM
+  | .kw w c1 _ h c2 _ c3 _ b => .tok (kwText w) :: ncm c1 ++ h.lexM ++ ncm c2 ++ .tok [';'] :: ncm c3 ++ b.lexM
+  | .sel e c1 _ _ attrs => e.lexM ++ ncm c1 ++ attrLex attrs
+  | .selOr e c1 _ _ attrs c2 _ _ d => e.lexM ++ ncm c1 ++ attrLex attrs ++ ncm c2 ++ .tok ['o', 'r'] :: d.lexM
+  | .lam n c1 _ c2 _ b => .tok n :: ncm c1 ++ .tok [':'] :: ncm c2 ++ b.lexM
+  | .un op c _ e => .tok op :: ncm c ++ e.lexM
+  | .bin l c1 _ op c2 _ r => l.lexM ++ ncm c1 ++ .tok op :: ncm c2 ++ r.lexM
 def Items.lexM : Items → List Lex
   | .nil => []
   | .cmt _ t rest => normCmt t :: rest.lexM
@@ -206,24 +212,6 @@ theorem allOk_append : ∀ {a b : List Expr}, allOk a → allOk b → allOk (a +
 theorem allOk_single {e : Expr} (h : e.ok) : allOk [e] := ⟨h, trivial⟩
 theorem lexOutAll_single (e : Expr) : lexOutAll [e] = e.lexOut false := by simp [lexOutAll]
 
-theorem ok_after {e : Expr} (h : e.ok) : TrivOk e.after := by
-  cases e with
-  | leaf k t b a => exact h.2.2
-  | list v m inn b a => exact h.2.2.2
-  | set v m r inn b a => exact h.2.2.2
-  | binding n v g b a => exact h.2.2.2
-  | paren v lg tg lb tb b a => exact h.2.2
-  | app n x g fa b a => exact h.2.2.2.2
-
-theorem ok_before {e : Expr} (h : e.ok) : TrivOk e.before := by
-  cases e with
-  | leaf k t b a => exact h.2.1
-  | list v m inn b a => exact h.2.2.1
-  | set v m r inn b a => exact h.2.2.1
-  | binding n v g b a => exact h.2.2.1
-  | paren v lg tg lb tb b a => exact h.2.1
-  | app n x g fa b a => exact h.2.2.2.1
-
 theorem ok_setBefore {e : Expr} (h : e.ok) {b : List Trivia} (hb : TrivOk b) : (e.setBefore b).ok := by
   cases e with
   | leaf k t b' a => exact ⟨h.1, hb, h.2.2⟩
@@ -232,6 +220,13 @@ theorem ok_setBefore {e : Expr} (h : e.ok) {b : List Trivia} (hb : TrivOk b) : (
   | binding n v g b' a => exact ⟨h.1, h.2.1, hb, h.2.2.2⟩
   | paren v lg tg lb tb b' a => exact ⟨h.1, hb, h.2.2⟩
   | app n x g fa b' a => exact ⟨h.1, h.2.1, h.2.2.1, hb, h.2.2.2.2⟩
+  | wth e bd c g s b' a => exact ⟨h.1, h.2.1, h.2.2.1, h.2.2.2.1, hb, h.2.2.2.2.2⟩
+  | asrt c bd x y b' a => exact ⟨h.1, h.2.1, h.2.2.1, h.2.2.2.1, hb, h.2.2.2.2.2⟩
+  | sel e ats g ab b' a => exact ⟨h.1, h.2.1, h.2.2.1, h.2.2.2.1, hb, h.2.2.2.2.2⟩
+  | selOr e ats g ab d dg db b' a => exact ⟨h.1, h.2.1, h.2.2.1, h.2.2.2.1, h.2.2.2.2.1, h.2.2.2.2.2.1, hb, h.2.2.2.2.2.2.2⟩
+  | lam n c g k bd b' a => exact ⟨h.1, h.2.1, h.2.2.1, hb, h.2.2.2.2⟩
+  | un o e g bt b' a => exact ⟨h.1, h.2.1, h.2.2.1, hb, h.2.2.2.2⟩
+  | bin o l r x y b' a => exact ⟨h.1, h.2.1, h.2.2.1, hb, h.2.2.2.2⟩
 
 theorem ok_setAfter {e : Expr} (h : e.ok) {a : List Trivia} (ha : TrivOk a) : (e.setAfter a).ok := by
   cases e with
@@ -241,6 +236,13 @@ theorem ok_setAfter {e : Expr} (h : e.ok) {a : List Trivia} (ha : TrivOk a) : (e
   | binding n v g b a' => exact ⟨h.1, h.2.1, h.2.2.1, ha⟩
   | paren v lg tg lb tb b a' => exact ⟨h.1, h.2.1, ha⟩
   | app n x g fa b a' => exact ⟨h.1, h.2.1, h.2.2.1, h.2.2.2.1, ha⟩
+  | wth e bd c g s b a' => exact ⟨h.1, h.2.1, h.2.2.1, h.2.2.2.1, h.2.2.2.2.1, ha⟩
+  | asrt c bd x y b a' => exact ⟨h.1, h.2.1, h.2.2.1, h.2.2.2.1, h.2.2.2.2.1, ha⟩
+  | sel e ats g ab b a' => exact ⟨h.1, h.2.1, h.2.2.1, h.2.2.2.1, h.2.2.2.2.1, ha⟩
+  | selOr e ats g ab d dg db b a' => exact ⟨h.1, h.2.1, h.2.2.1, h.2.2.2.1, h.2.2.2.2.1, h.2.2.2.2.2.1, h.2.2.2.2.2.2.1, ha⟩
+  | lam n c g k bd b a' => exact ⟨h.1, h.2.1, h.2.2.1, h.2.2.2.1, ha⟩
+  | un o e g bt b a' => exact ⟨h.1, h.2.1, h.2.2.1, h.2.2.2.1, ha⟩
+  | bin o l r x y b a' => exact ⟨h.1, h.2.1, h.2.2.1, h.2.2.2.1, ha⟩
 
 theorem ok_addAfter {e : Expr} (h : e.ok) {a : List Trivia} (ha : TrivOk a) : (e.addAfter a).ok :=
   ok_setAfter h (trivOk_append (ok_after h) ha)
@@ -264,9 +266,63 @@ theorem lexOut_setBefore (e : Expr) (hb : e.before = []) (b : List Trivia) (na :
   | binding n v g b' a => simp only [Expr.before] at hb; subst hb; simp [Expr.setBefore, Expr.lexOut]
   | paren v lg tg lb tb b' a => simp only [Expr.before] at hb; subst hb; simp [Expr.setBefore, Expr.lexOut]
   | app n x g fa b' a => simp only [Expr.before] at hb; subst hb; simp [Expr.setBefore, Expr.lexOut]
+  | wth e bd c g s b' a => simp only [Expr.before] at hb; subst hb; simp [Expr.setBefore, Expr.lexOut]
+  | asrt c bd x y b' a => simp only [Expr.before] at hb; subst hb; simp [Expr.setBefore, Expr.lexOut]
+  | sel e ats g ab b' a => simp only [Expr.before] at hb; subst hb; simp [Expr.setBefore, Expr.lexOut]
+  | selOr e ats g ab d dg db b' a => simp only [Expr.before] at hb; subst hb; simp [Expr.setBefore, Expr.lexOut]
+  | lam n c g k bd b' a => simp only [Expr.before] at hb; subst hb; simp [Expr.setBefore, Expr.lexOut]
+  | un o e g bt b' a => simp only [Expr.before] at hb; subst hb; simp [Expr.setBefore, Expr.lexOut]
+  | bin o l r x y b' a => simp only [Expr.before] at hb; subst hb; simp [Expr.setBefore, Expr.lexOut]
 
-theorem lexOut_addAfter (e : Expr) (ts : List Trivia) : (e.addAfter ts).lexOut false = e.lexOut false ++ cm ts := by
+theorem modifyLast_isEmpty' {α : Type} (f : α → α) : ∀ (l : List α), (modifyLast f l).isEmpty = l.isEmpty
+  | [] => rfl
+  | [_] => rfl
+  | _ :: _ :: _ => rfl
+
+def Expr.isAsrtE : Expr → Bool
+  | .asrt .. => true
+  | _ => false
+
+def lastAsrt : List Expr → Bool
+  | [] => false
+  | [e] => e.isAsrtE
+  | _ :: y :: r => lastAsrt (y :: r)
+
+theorem isAsrtE_setBefore (e : Expr) (b : List Trivia) : (e.setBefore b).isAsrtE = e.isAsrtE := by cases e <;> rfl
+theorem isAsrtE_addAfter (e : Expr) (a : List Trivia) : (e.addAfter a).isAsrtE = e.isAsrtE := by cases e <;> rfl
+
+theorem lastAsrt_append_single : ∀ (l : List Expr) (x : Expr), lastAsrt (l ++ [x]) = x.isAsrtE
+  | [], _ => rfl
+  | [_], _ => rfl
+  | _ :: y :: r, x => by
+    have := lastAsrt_append_single (y :: r) x
+    simpa [lastAsrt] using this
+
+theorem lastAsrt_modifyLast (f : Expr → Expr) (hf : ∀ e, (f e).isAsrtE = e.isAsrtE) :
+    ∀ (l : List Expr), lastAsrt (modifyLast f l) = lastAsrt l
+  | [] => rfl
+  | [e] => hf e
+  | e :: e' :: r => by
+    have ih := lastAsrt_modifyLast f hf (e' :: r)
+    cases hm : modifyLast f (e' :: r) with
+    | nil =>
+      have := modifyLast_isEmpty' f (e' :: r)
+      rw [hm] at this; cases this
+    | cons y ys =>
+      rw [hm] at ih
+      simp only [modifyLast, hm, lastAsrt]
+      exact ih
+
+theorem lexOut_addAfter (e : Expr) (hna : e.isAsrtE = false) (ts : List Trivia) :
+    (e.addAfter ts).lexOut false = e.lexOut false ++ cm ts := by
   cases e with
+  | wth e bd c g s b a => simp [Expr.addAfter, Expr.setAfter, Expr.after, Expr.lexOut]
+  | sel e ats g ab b a => simp [Expr.addAfter, Expr.setAfter, Expr.after, Expr.lexOut]
+  | selOr e ats g ab d dg db b a => simp [Expr.addAfter, Expr.setAfter, Expr.after, Expr.lexOut]
+  | lam n c g k bd b a => simp [Expr.addAfter, Expr.setAfter, Expr.after, Expr.lexOut]
+  | un o e g bt b a => simp [Expr.addAfter, Expr.setAfter, Expr.after, Expr.lexOut]
+  | bin o l r x y b a => simp [Expr.addAfter, Expr.setAfter, Expr.after, Expr.lexOut]
+  | asrt c bd x y b a => cases hna
   | leaf k t b a => simp [Expr.addAfter, Expr.setAfter, Expr.after, Expr.lexOut]
   | list v m inn b a => simp [Expr.addAfter, Expr.setAfter, Expr.after, Expr.lexOut]
   | set v m r inn b a => simp [Expr.addAfter, Expr.setAfter, Expr.after, Expr.lexOut]
@@ -282,6 +338,13 @@ theorem lexOut_addAfter_true (e : Expr) (ts : List Trivia) : (e.addAfter ts).lex
   | binding n v g b a => simp [Expr.addAfter, Expr.setAfter, Expr.after, Expr.lexOut]
   | paren v lg tg lb tb b a => simp [Expr.addAfter, Expr.setAfter, Expr.after, Expr.lexOut]
   | app n x g fa b a => simp [Expr.addAfter, Expr.setAfter, Expr.after, Expr.lexOut]
+  | wth e bd c g s b a => simp [Expr.addAfter, Expr.setAfter, Expr.after, Expr.lexOut]
+  | asrt c bd x y b a => simp [Expr.addAfter, Expr.setAfter, Expr.after, Expr.lexOut]
+  | sel e ats g ab b a => simp [Expr.addAfter, Expr.setAfter, Expr.after, Expr.lexOut]
+  | selOr e ats g ab d dg db b a => simp [Expr.addAfter, Expr.setAfter, Expr.after, Expr.lexOut]
+  | lam n c g k bd b a => simp [Expr.addAfter, Expr.setAfter, Expr.after, Expr.lexOut]
+  | un o e g bt b a => simp [Expr.addAfter, Expr.setAfter, Expr.after, Expr.lexOut]
+  | bin o l r x y b a => simp [Expr.addAfter, Expr.setAfter, Expr.after, Expr.lexOut]
 
 theorem lexOut_true_of_after_nil (e : Expr) (h : e.after = []) : e.lexOut true = e.lexOut false := by
   cases e with
@@ -291,20 +354,75 @@ theorem lexOut_true_of_after_nil (e : Expr) (h : e.after = []) : e.lexOut true =
   | binding n v g b a => simp only [Expr.after] at h; subst h; simp [Expr.lexOut]
   | paren v lg tg lb tb b a => simp only [Expr.after] at h; subst h; simp [Expr.lexOut]
   | app n x g fa b a => simp only [Expr.after] at h; subst h; simp [Expr.lexOut]
+  | wth e bd c g s b a => simp only [Expr.after] at h; subst h; simp [Expr.lexOut]
+  | asrt c bd x y b a => simp only [Expr.after] at h; subst h; simp [Expr.lexOut]
+  | sel e ats g ab b a => simp only [Expr.after] at h; subst h; simp [Expr.lexOut]
+  | selOr e ats g ab d dg db b a => simp only [Expr.after] at h; subst h; simp [Expr.lexOut]
+  | lam n c g k bd b a => simp only [Expr.after] at h; subst h; simp [Expr.lexOut]
+  | un o e g bt b a => simp only [Expr.after] at h; subst h; simp [Expr.lexOut]
+  | bin o l r x y b a => simp only [Expr.after] at h; subst h; simp [Expr.lexOut]
 
 theorem modifyLast_isEmpty {α : Type} (f : α → α) : ∀ (l : List α), (modifyLast f l).isEmpty = l.isEmpty
   | [] => rfl
   | [_] => rfl
   | _ :: _ :: _ => rfl
 
-theorem modifyLast_addAfter : ∀ (items : List Expr) (ts : List Trivia), items ≠ [] →
-    lexOutAll (modifyLast (fun e => e.addAfter ts) items) = lexOutAll items ++ cm ts
-  | [], _, h => absurd rfl h
-  | [e], ts, _ => by simp [modifyLast, lexOutAll, lexOut_addAfter]
-  | e :: e' :: rest, ts, _ => by
-    have ih := modifyLast_addAfter (e' :: rest) ts (by simp)
-    simp only [modifyLast, lexOutAll] at ih ⊢
-    rw [ih]; simp [List.append_assoc]
+/-- what is compared: everything (`strict`), or the code tokens only -/
+def Lex.isTok : Lex → Bool
+  | .tok _ => true
+  | .cmt _ => false
+
+def proj (strict : Bool) (l : List Lex) : List Lex := if strict then l else l.filter Lex.isTok
+
+theorem proj_append (s : Bool) (a b : List Lex) : proj s (a ++ b) = proj s a ++ proj s b := by
+  cases s <;> simp [proj]
+
+theorem filter_isTok_cm (ts : List Trivia) : (cm ts).filter Lex.isTok = [] := by
+  induction ts with
+  | nil => rfl
+  | cons t ts ih => cases t <;> simp [cm, Lex.isTok, List.filterMap_cons] at ih ⊢ <;> exact ih
+
+theorem proj_false_cm (ts : List Trivia) : proj false (cm ts) = [] := by simp [proj, filter_isTok_cm]
+
+/-- trailing trivia added to an expression are written after it — for an `assert` (whose trailing
+    trivia are written in front of its body) as far as the code tokens go, and entirely when the added
+    trivia hold no comment -/
+theorem lexOut_addAfter_proj (strict : Bool) (e : Expr) (ts : List Trivia)
+    (h : strict = true → e.isAsrtE = true → cm ts = []) :
+    proj strict ((e.addAfter ts).lexOut false) = proj strict (e.lexOut false ++ cm ts) := by
+  cases hA : e.isAsrtE with
+  | false => rw [lexOut_addAfter e hA]
+  | true =>
+    cases e with
+    | asrt c bd x y b a =>
+      simp only [Expr.addAfter, Expr.setAfter, Expr.after, Expr.lexOut, Bool.false_eq_true, if_false, cm_append]
+      cases strict with
+      | true => rw [h rfl hA]; simp
+      | false => simp only [proj_append, proj_false_cm, List.append_nil, List.nil_append]
+    | leaf => cases hA
+    | list => cases hA
+    | set => cases hA
+    | binding => cases hA
+    | paren => cases hA
+    | app => cases hA
+    | wth => cases hA
+    | sel => cases hA
+    | selOr => cases hA
+    | lam => cases hA
+    | un => cases hA
+    | bin => cases hA
+
+theorem modifyLast_addAfter (strict : Bool) : ∀ (items : List Expr) (ts : List Trivia), items ≠ [] →
+    (strict = true → lastAsrt items = true → cm ts = []) →
+    proj strict (lexOutAll (modifyLast (fun e => e.addAfter ts) items)) = proj strict (lexOutAll items ++ cm ts)
+  | [], _, h, _ => absurd rfl h
+  | [e], ts, _, hl => by
+    simp only [modifyLast, lexOutAll, List.append_nil]
+    exact lexOut_addAfter_proj strict e ts hl
+  | e :: e' :: rest, ts, _, hl => by
+    have ih := modifyLast_addAfter strict (e' :: rest) ts (by simp) hl
+    simp only [modifyLast, lexOutAll, proj_append] at ih ⊢
+    rw [ih]; simp only [List.append_assoc]
 
 theorem modifyLast_ok : ∀ {items : List Expr} {ts : List Trivia}, allOk items → TrivOk ts →
     allOk (modifyLast (fun e => e.addAfter ts) items)
@@ -324,7 +442,8 @@ theorem binding_spec {n : Text} {c1 c2 c3 : GC} {g1 g2 g3 : Text} {ve : Expr} {b
     (hn : nameOk n = true) (h1 : gcOk c1 g1 = true) (h2 : gcOk c2 g2 = true) (h3 : gcOk c3 g3 = true)
     (hve : ve.ok) (hvb : ve.before = []) (hva : ve.after = []) (hb : TrivOk before) :
     ∃ b, bindingFromCst n c1 c2 g2 ve c3 before = .ok b ∧ b.ok ∧
-      b.lexOut false = cm before ++ (.tok n :: .tok ['='] :: ncm c1 ++ ncm c2 ++ ve.lexOut false ++ .tok [';'] :: ncm c3) := by
+      b.lexOut false = cm before ++ (.tok n :: .tok ['='] :: ncm c1 ++ ncm c2 ++ ve.lexOut false ++ .tok [';'] :: ncm c3) ∧
+      b.isAsrtE = false := by
   obtain ⟨hsplit, hsolid⟩ := nameOk_spec hn
   have s1 := gcTrivia_spec c1 [] g1 h1 trivOk_nil
   have s2 := gcTrivia_spec c2 _ g2 h2 s1.1
@@ -338,7 +457,7 @@ theorem binding_spec {n : Text} {c1 c2 c3 : GC} {g1 g2 g3 : Text} {ve : Expr} {b
   simp only [hsplit]
   cases c3 with
   | nil =>
-    refine ⟨_, rfl, ⟨hsolid, ok_addAfter hv1 (by simpa [gcTrivia] using trivOk_nil), hb, trivOk_nil⟩, ?_⟩
+    refine ⟨_, rfl, ⟨hsolid, ok_addAfter hv1 (by simpa [gcTrivia] using trivOk_nil), hb, trivOk_nil⟩, ?_, rfl⟩
     simp only [Expr.lexOut]
     rw [lexOut_addAfter_true, hvb, List.append_nil, lexOut_setBefore ve hvb, hbvcm,
       lexOut_true_of_after_nil ve hva]
@@ -349,7 +468,7 @@ theorem binding_spec {n : Text} {c1 c2 c3 : GC} {g1 g2 g3 : Text} {ve : Expr} {b
     · -- not on the value's row
       have s3 := gcTrivia_spec (p :: rest) [] g3 h3 trivOk_nil
       simp only [hnl, Bool.not_true, Bool.false_eq_true, if_false]
-      refine ⟨_, rfl, ⟨hsolid, ok_addAfter hv1 s3.1, hb, trivOk_nil⟩, ?_⟩
+      refine ⟨_, rfl, ⟨hsolid, ok_addAfter hv1 s3.1, hb, trivOk_nil⟩, ?_, rfl⟩
       simp only [Expr.lexOut]
       rw [lexOut_addAfter_true, hvb, List.append_nil, lexOut_setBefore ve hvb, hbvcm,
         lexOut_true_of_after_nil ve hva]
@@ -358,30 +477,13 @@ theorem binding_spec {n : Text} {c1 c2 c3 : GC} {g1 g2 g3 : Text} {ve : Expr} {b
       have s3 := gcTrivia_spec rest [] g3 hrest trivOk_nil
       have hc := mkComment_cOk hp true
       simp only [hnl', Bool.not_false, if_true]
-      refine ⟨_, rfl, ⟨hsolid, ok_addAfter (ok_addAfter hv1 (trivOk_comment hc)) s3.1, hb, trivOk_nil⟩, ?_⟩
+      refine ⟨_, rfl, ⟨hsolid, ok_addAfter (ok_addAfter hv1 (trivOk_comment hc)) s3.1, hb, trivOk_nil⟩, ?_, rfl⟩
       simp only [Expr.lexOut]
       rw [lexOut_addAfter_true, lexOut_addAfter_true, hvb, List.append_nil, lexOut_setBefore ve hvb, hbvcm,
         lexOut_true_of_after_nil ve hva]
       simp [hva, s3.2, ncm, normCmt, mkComment_token]
 
 /-! ### sequences -/
-
-def Lex.isTok : Lex → Bool
-  | .tok _ => true
-  | .cmt _ => false
-
-/-- what is compared: everything (`strict`), or the code tokens only -/
-def proj (strict : Bool) (l : List Lex) : List Lex := if strict then l else l.filter Lex.isTok
-
-theorem proj_append (s : Bool) (a b : List Lex) : proj s (a ++ b) = proj s a ++ proj s b := by
-  cases s <;> simp [proj]
-
-theorem filter_isTok_cm (ts : List Trivia) : (cm ts).filter Lex.isTok = [] := by
-  induction ts with
-  | nil => rfl
-  | cons t ts ih => cases t <;> simp [cm, Lex.isTok, List.filterMap_cons] at ih ⊢ <;> exact ih
-
-theorem proj_false_cm (ts : List Trivia) : proj false (cm ts) = [] := by simp [proj, filter_isTok_cm]
 
 /-- the lexical content accumulated by the loop of `parse_delimited_sequence` -/
 def seqLex (st : SeqSt) : List Lex := lexOutAll st.items ++ cm st.before
@@ -406,12 +508,14 @@ theorem canInline_eq (m : Mode) (st : SeqSt) (g : Text) :
 theorem seqComment_spec (strict : Bool) (m : Mode) (st : SeqSt) (g t : Text) (ht : isCommentTok t = true)
     (hst : StOk st) (pend : Bool)
     (hord : strict = true → (pend = false → cm st.before = []) ∧
-      (canInline m st g = true → pend = false)) :
+      (canInline m st g = true → pend = false))
+    (hla : strict = true → lastAsrt st.items = false) :
     StOk (seqComment m st g t) ∧
     proj strict (seqLex (seqComment m st g t)) = proj strict (seqLex st ++ [normCmt t]) ∧
     (seqComment m st g t).prev = .cmt ∧
     (seqComment m st g t).items.isEmpty = st.items.isEmpty ∧
-    (canInline m st g = true → cm (seqComment m st g t).before = cm st.before) := by
+    (canInline m st g = true → cm (seqComment m st g t).before = cm st.before) ∧
+    lastAsrt (seqComment m st g t).items = lastAsrt st.items := by
   by_cases hin : canInline m st g = true
   · have e : seqComment m st g t =
         { items := modifyLast (fun e => e.addAfter [.comment (mkComment t true)]) st.items,
@@ -424,14 +528,16 @@ theorem seqComment_spec (strict : Bool) (m : Mode) (st : SeqSt) (g t : Text) (ht
       exact hin.2
     have hc := mkComment_cOk ht true
     refine ⟨⟨modifyLast_ok hst.1 (trivOk_comment hc), pushGap_ok hst.2 g⟩, ?_, rfl, modifyLast_isEmpty _ _,
-      fun _ => pushGap_cm st g⟩
-    simp only [seqLex, modifyLast_addAfter _ _ hne, pushGap_cm, cm_comment, cm_nil, mkComment_token]
+      fun _ => pushGap_cm st g, lastAsrt_modifyLast _ (fun e => isAsrtE_addAfter e _) _⟩
+    have hml := modifyLast_addAfter strict st.items [.comment (mkComment t true)] hne
+      (fun hs hl => by rw [hla hs] at hl; cases hl)
+    simp only [seqLex, proj_append, hml, pushGap_cm, cm_comment, cm_nil, mkComment_token]
     cases strict with
     | true =>
       have := (hord rfl).1 ((hord rfl).2 hin)
       simp [proj, this, normCmt]
     | false =>
-      simp only [proj_append, proj_false_cm]
+      simp only [proj_false_cm]
       simp [proj, Lex.isTok, normCmt]
   · have e : seqComment m st g t =
         { items := st.items, before := pushGap st g ++ [.comment (mkComment t false)], prev := .cmt } := by
@@ -439,20 +545,31 @@ theorem seqComment_spec (strict : Bool) (m : Mode) (st : SeqSt) (g t : Text) (ht
     rw [e]
     have hc := mkComment_cOk ht false
     refine ⟨⟨hst.1, trivOk_append (pushGap_ok hst.2 g) (trivOk_comment hc)⟩, ?_, rfl, rfl,
-      fun h => absurd h hin⟩
+      fun h => absurd h hin, rfl⟩
     simp [seqLex, pushGap_cm, normCmt, List.append_assoc]
 
 theorem trivOk_emptyLine : TrivOk [Trivia.emptyLine] := ⟨by simp [CommaFree], by intro c hc; simp at hc⟩
+theorem trivOk_linebreak : TrivOk [Trivia.linebreak] := ⟨by simp [CommaFree], by intro c hc; simp at hc⟩
+
+theorem appendGapTrivia_cases (g : Text) :
+    appendGapTrivia [] g = [] ∨ appendGapTrivia [] g = [.emptyLine] ∨ appendGapTrivia [] g = [.linebreak] := by
+  unfold appendGapTrivia; split
+  · exact Or.inr (Or.inl rfl)
+  · split
+    · exact Or.inr (Or.inr rfl)
+    · exact Or.inl rfl
 
 /-- after the loop -/
-theorem finishSeq_spec {st : SeqSt} (hst : StOk st) (cgo : Option Text) (hc : Bool) :
+theorem finishSeq_spec (strict : Bool) {st : SeqSt} (hst : StOk st) (cgo : Option Text) (hc : Bool)
+    (hla : strict = true → lastAsrt st.items = true → cm st.before = []) :
     allOk (finishSeq st cgo hc).1 ∧ TrivOk (finishSeq st cgo hc).2 ∧
-    lexOutAll (finishSeq st cgo hc).1 ++ cm (finishSeq st cgo hc).2 = seqLex st ∧
+    proj strict (lexOutAll (finishSeq st cgo hc).1 ++ cm (finishSeq st cgo hc).2) = proj strict (seqLex st) ∧
     ((finishSeq st cgo hc).1 ≠ [] → cm (finishSeq st cgo hc).2 = []) := by
   -- first stage
   have stage1 : ∃ items inner, (if st.before.isEmpty then (st.items, []) else if st.items.isEmpty then ([], st.before)
         else (modifyLast (fun e => e.addAfter st.before) st.items, [])) = ((items, inner) : List Expr × List Trivia) ∧
-      allOk items ∧ TrivOk inner ∧ lexOutAll items ++ cm inner = seqLex st ∧ (items ≠ [] → cm inner = []) := by
+      allOk items ∧ TrivOk inner ∧ proj strict (lexOutAll items ++ cm inner) = proj strict (seqLex st) ∧
+      (items ≠ [] → cm inner = []) := by
     by_cases hb : st.before.isEmpty = true
     · have hb0 : st.before = [] := by simpa using hb
       exact ⟨st.items, [], by rw [if_pos hb], hst.1, trivOk_nil, by simp [seqLex, hb0], fun _ => rfl⟩
@@ -461,8 +578,8 @@ theorem finishSeq_spec {st : SeqSt} (hst : StOk st) (cgo : Option Text) (hc : Bo
         exact ⟨[], st.before, by rw [if_neg hb, if_pos hi], trivial, hst.2, by simp [seqLex, hi0, lexOutAll],
           fun h => absurd rfl h⟩
       · have hne : st.items ≠ [] := by simpa using hi
-        exact ⟨_, [], by rw [if_neg hb, if_neg hi], modifyLast_ok hst.1 hst.2, trivOk_nil,
-          by simp [seqLex, modifyLast_addAfter _ _ hne], fun _ => rfl⟩
+        refine ⟨_, [], by rw [if_neg hb, if_neg hi], modifyLast_ok hst.1 hst.2, trivOk_nil, ?_, fun _ => rfl⟩
+        rw [cm_nil, List.append_nil, modifyLast_addAfter strict _ _ hne hla]; rfl
   obtain ⟨items, inner, he, h1, h2, h3, h4⟩ := stage1
   unfold finishSeq
   simp only [he]
@@ -479,7 +596,8 @@ theorem finishSeq_spec {st : SeqSt} (hst : StOk st) (cgo : Option Text) (hc : Bo
       · rename_i hie
         have hne : items ≠ [] := by simpa using hie
         refine ⟨modifyLast_ok h1 trivOk_emptyLine, h2, ?_, fun _ => h4 hne⟩
-        rw [modifyLast_addAfter _ _ hne]; simpa using h3
+        rw [proj_append, modifyLast_addAfter strict _ _ hne (fun _ _ => rfl), ← proj_append]
+        simpa using h3
     · exact ⟨h1, h2, h3, h4⟩
 
 theorem emptyInner_spec {items : List Expr} {inner : List Trivia} (h : TrivOk inner) (between : Text) :
@@ -760,48 +878,50 @@ theorem stOk_init (its : Items) : StOk { before := openBefore its } := ⟨trivia
 mutual
 theorem cst_parse_spec (strict : Bool) : (c : Cst) → c.wf = true → (strict = true → c.orderOk = true) →
     ∃ e, c.parse = .ok e ∧ e.ok ∧ e.before = [] ∧ e.after = [] ∧
-      proj strict (e.lexOut false) = proj strict c.lexM
+      proj strict (e.lexOut false) = proj strict c.lexM ∧ e.isAsrtE = c.isAsrt
   | .leaf k t, hwf, _ => by
     have := leaf_spec (k := k) (t := t) hwf
-    exact ⟨_, this.1, ⟨this.2, trivOk_nil, trivOk_nil⟩, rfl, rfl, by simp [Expr.lexOut, Cst.lexM]⟩
+    exact ⟨_, this.1, ⟨this.2, trivOk_nil, trivOk_nil⟩, rfl, rfl, by simp [Expr.lexOut, Cst.lexM], rfl⟩
   | .list its cg, hwf, hord => by
     simp only [Cst.wf, Bool.and_eq_true] at hwf
-    obtain ⟨st', hp, hst', hlex⟩ := items_parse_spec strict its .list cg { before := openBefore its } false hwf.1
-      (stOk_init its) (fun hs => ⟨by simpa [Cst.orderOk] using hord hs, fun _ => (openBefore_spec its).2⟩)
-    have hf := finishSeq_spec hst' (some cg) (!its.isNil)
+    obtain ⟨st', hp, hst', hlex, hfin⟩ := items_parse_spec strict its .list cg { before := openBefore its } false hwf.1
+      (stOk_init its) (fun hs => ⟨by simpa [Cst.orderOk] using hord hs, fun _ => (openBefore_spec its).2,
+        fun h => by cases h⟩)
+    have hf := finishSeq_spec strict hst' (some cg) (!its.isNil) hfin
     have hei := emptyInner_spec (items := (finishSeq st' (some cg) (!its.isNil)).1) hf.2.1 (its.flatten ++ cg)
     have hpe : (Cst.list its cg).parse = .ok (.list (finishSeq st' (some cg) (!its.isNil)).1
         (containsNL ('[' :: its.flatten ++ cg ++ [']']))
         (emptyInner (finishSeq st' (some cg) (!its.isNil)).1 (finishSeq st' (some cg) (!its.isNil)).2 (its.flatten ++ cg))
         [] []) := by simp only [Cst.parse, hp]
-    refine ⟨_, hpe, ⟨hf.1, hei.1, trivOk_nil, trivOk_nil⟩, rfl, rfl, ?_⟩
+    refine ⟨_, hpe, ⟨hf.1, hei.1, trivOk_nil, trivOk_nil⟩, rfl, rfl, ?_, rfl⟩
     simp only [Expr.lexOut, Cst.lexM, cm_nil, List.nil_append, List.append_nil, if_false, Bool.false_eq_true]
-    rw [hei.2, body_lex _ _ hf.2.2.2, hf.2.2.1]
+    rw [hei.2, body_lex _ _ hf.2.2.2]
     rw [seqLex_init, List.nil_append] at hlex
     rw [show (Lex.tok ['['] :: its.lexM ++ [Lex.tok [']']]) = [Lex.tok ['[']] ++ its.lexM ++ [Lex.tok [']']] from by simp]
-    simp only [proj_append, hlex]
+    simp only [proj_append, hf.2.2.1, hlex]
   | .set isRec rg its cg, hwf, hord => by
     simp only [Cst.wf, Bool.and_eq_true] at hwf
-    obtain ⟨st', hp, hst', hlex⟩ := items_parse_spec strict its .set cg { before := openBefore its } false hwf.1.2
-      (stOk_init its) (fun hs => ⟨by simpa [Cst.orderOk] using hord hs, fun _ => (openBefore_spec its).2⟩)
-    have hf := finishSeq_spec hst' (some cg) (!its.isNil)
+    obtain ⟨st', hp, hst', hlex, hfin⟩ := items_parse_spec strict its .set cg { before := openBefore its } false hwf.1.2
+      (stOk_init its) (fun hs => ⟨by simpa [Cst.orderOk] using hord hs, fun _ => (openBefore_spec its).2,
+        fun h => by cases h⟩)
+    have hf := finishSeq_spec strict hst' (some cg) (!its.isNil) hfin
     have hei := emptyInner_spec (items := (finishSeq st' (some cg) (!its.isNil)).1) hf.2.1 (its.flatten ++ cg)
     have hpe : (Cst.set isRec rg its cg).parse = .ok (.set (finishSeq st' (some cg) (!its.isNil)).1
         (containsNL (Cst.flatten (.set isRec rg its cg))) isRec
         (emptyInner (finishSeq st' (some cg) (!its.isNil)).1 (finishSeq st' (some cg) (!its.isNil)).2 (its.flatten ++ cg))
         [] []) := by simp only [Cst.parse, hp]
-    refine ⟨_, hpe, ⟨hf.1, hei.1, trivOk_nil, trivOk_nil⟩, rfl, rfl, ?_⟩
+    refine ⟨_, hpe, ⟨hf.1, hei.1, trivOk_nil, trivOk_nil⟩, rfl, rfl, ?_, rfl⟩
     simp only [Expr.lexOut, Cst.lexM, cm_nil, List.nil_append, List.append_nil, if_false, Bool.false_eq_true]
-    rw [hei.2, body_lex _ _ hf.2.2.2, hf.2.2.1]
+    rw [hei.2, body_lex _ _ hf.2.2.2]
     rw [seqLex_init, List.nil_append] at hlex
     rw [show (recLex isRec ++ Lex.tok ['{'] :: its.lexM ++ [Lex.tok ['}']]) =
       recLex isRec ++ [Lex.tok ['{']] ++ its.lexM ++ [Lex.tok ['}']] from by simp]
-    simp only [proj_append, hlex]
+    simp only [proj_append, hf.2.2.1, hlex]
   | .paren its cg, hwf, hord => by
     simp only [Cst.wf, Bool.and_eq_true, beq_iff_eq] at hwf
-    obtain ⟨st', hp, hst', hlex⟩ := items_parse_spec strict its .paren cg {} false hwf.1.1
-      ⟨trivial, trivOk_nil⟩ (fun hs => ⟨by simpa [Cst.orderOk] using hord hs, fun _ => rfl⟩)
-    have hf := finishSeq_spec hst' none (!its.isNil)
+    obtain ⟨st', hp, hst', hlex, hfin⟩ := items_parse_spec strict its .paren cg {} false hwf.1.1
+      ⟨trivial, trivOk_nil⟩ (fun hs => ⟨by simpa [Cst.orderOk] using hord hs, fun _ => rfl, fun h => by cases h⟩)
+    have hf := finishSeq_spec strict hst' none (!its.isNil) hfin
     have hlen : (finishSeq st' none (!its.isNil)).1.length = 1 := by
       rw [finishSeq_length, items_parse_count its .paren _ st' hp (Or.inr rfl), hwf.1.2]; rfl
     obtain ⟨v, hv⟩ : ∃ v, (finishSeq st' none (!its.isNil)).1 = [v] := by
@@ -811,17 +931,16 @@ theorem cst_parse_spec (strict : Bool) : (c : Cst) → c.wf = true → (strict =
         (gapHasEmptyLineOffsets (its.firstGap.getD [])) (gapHasEmptyLineOffsets cg) [] []) := by
       simp only [Cst.parse, hp, hv]
     rw [hv] at hf
-    refine ⟨_, hpe, ⟨hf.1.1, trivOk_nil, trivOk_nil⟩, rfl, rfl, ?_⟩
-    have hvl : v.lexOut false = seqLex st' := by
+    refine ⟨_, hpe, ⟨hf.1.1, trivOk_nil, trivOk_nil⟩, rfl, rfl, ?_, rfl⟩
+    have hvl : proj strict (v.lexOut false) = proj strict (seqLex st') := by
       have h1 := hf.2.2.1
       rw [hf.2.2.2 (by simp)] at h1
       simpa [lexOutAll] using h1
     simp only [Expr.lexOut, Cst.lexM, cm_nil, List.nil_append, List.append_nil, if_false, Bool.false_eq_true]
-    rw [hvl]
     have hlex' : proj strict (seqLex st') = proj strict its.lexM := by
       rw [hlex]; simp [seqLex, lexOutAll]
     rw [show (Lex.tok ['('] :: its.lexM ++ [Lex.tok [')']]) = [Lex.tok ['(']] ++ its.lexM ++ [Lex.tok [')']] from by simp]
-    simp only [proj_append, hlex']
+    simp only [proj_append, hvl, hlex']
   | .app f cs g a, hwf, hord => by
     simp only [Cst.wf, Bool.and_eq_true] at hwf
     obtain ⟨⟨⟨hfw, hcs⟩, _⟩, haw⟩ := hwf
@@ -830,31 +949,205 @@ theorem cst_parse_spec (strict : Bool) : (c : Cst) → c.wf = true → (strict =
       have := hord hs
       simp only [Cst.orderOk, Bool.and_eq_true] at this
       exact ⟨this.1.1, this.1.2, this.2⟩
-    obtain ⟨fe, hpf, hfok, _, _, hfl⟩ := cst_parse_spec strict f hfw (fun hs => (hord' hs).1)
-    obtain ⟨ae, hpa, haok, hab, _, hal⟩ := cst_parse_spec strict a haw (fun hs => (hord' hs).2.2)
+    obtain ⟨fe, hpf, hfok, _, _, hfl, _⟩ := cst_parse_spec strict f hfw (fun hs => (hord' hs).1)
+    obtain ⟨ae, hpa, haok, hab, _, hal, _⟩ := cst_parse_spec strict a haw (fun hs => (hord' hs).2.2)
     have hsp := app_spec strict hcs hfok haok hab (fun hs => (hord' hs).2.1)
-    refine ⟨appFromCst fe ae cs g, by simp only [Cst.parse, hpf, hpa], hsp.1, hsp.2.1, hsp.2.2.1, ?_⟩
+    refine ⟨appFromCst fe ae cs g, by simp only [Cst.parse, hpf, hpa], hsp.1, hsp.2.1, hsp.2.2.1, ?_, rfl⟩
     rw [hsp.2.2.2, Cst.lexM]
     simp only [proj_append, hfl, hal]
+  | .kw w c1 g1 h c2 g2 c3 g3 b, hwf, hord => by
+    simp only [Cst.wf, Bool.and_eq_true, List.isEmpty_iff] at hwf
+    obtain ⟨⟨⟨⟨⟨⟨⟨hc1, _⟩, hhw⟩, hc2⟩, _⟩, hc3⟩, _⟩, hbw⟩ := hwf
+    subst hc1; subst hc2; subst hc3
+    have hord' : strict = true → h.orderOk = true ∧ b.orderOk = true := by
+      intro hs
+      have := hord hs
+      simpa [Cst.orderOk] using this
+    obtain ⟨he, hph, hhok, _, _, hhl, _⟩ := cst_parse_spec strict h hhw (fun hs => (hord' hs).1)
+    obtain ⟨be, hpb, hbok, hbb, hba, hbl, _⟩ := cst_parse_spec strict b hbw (fun hs => (hord' hs).2)
+    -- the body with layout markers in front of it
+    have hbody : ∀ (ts : List Trivia), (ts = [] ∨ ts = [.emptyLine] ∨ ts = [.linebreak]) →
+        (if ts.isEmpty then be else be.setBefore (ts ++ be.before)).ok ∧
+        (if ts.isEmpty then be else be.setBefore (ts ++ be.before)).lexOut false = be.lexOut false := by
+      intro ts hts
+      rcases hts with e | e | e <;> subst e
+      · exact ⟨hbok, rfl⟩
+      · refine ⟨ok_setBefore hbok (by rw [hbb]; exact trivOk_emptyLine), ?_⟩
+        simp only [List.isEmpty_cons, Bool.false_eq_true, if_false]
+        rw [lexOut_setBefore be hbb, hbb]; simp
+      · refine ⟨ok_setBefore hbok (by rw [hbb]; exact trivOk_linebreak), ?_⟩
+        simp only [List.isEmpty_cons, Bool.false_eq_true, if_false]
+        rw [lexOut_setBefore be hbb, hbb]; simp
+    cases w with
+    | true =>
+      have hsh : withFromCst he be [] g1 [] g2 [] g3 =
+          .wth he (if (appendGapTrivia [] (g2 ++ ';' :: g3)).isEmpty then be
+            else be.setBefore (appendGapTrivia [] (g2 ++ ';' :: g3) ++ be.before)) [] g1 [] [] [] := by
+        unfold withFromCst
+        simp only [collectTrivia, collectGo, semiSeq, List.isEmpty_nil, Bool.not_true, Bool.false_and, Bool.false_eq_true,
+          if_false, if_true]
+        rcases appendGapTrivia_cases (g2 ++ ';' :: g3) with e | e | e <;> rw [e] <;> simp [splitInline]
+      have hb' := hbody _ (appendGapTrivia_cases (g2 ++ ';' :: g3))
+      have hparse : (Cst.kw true [] g1 h [] g2 [] g3 b).parse = .ok (.wth he (if (appendGapTrivia [] (g2 ++ ';' :: g3)).isEmpty then be
+            else be.setBefore (appendGapTrivia [] (g2 ++ ';' :: g3) ++ be.before)) [] g1 [] [] []) := by
+        simp only [Cst.parse, hph, hpb, if_true, hsh]
+      refine ⟨_, hparse, ⟨hhok, hb'.1, rfl, rfl, trivOk_nil, trivOk_nil⟩, rfl, rfl, ?_, rfl⟩
+      simp only [Expr.lexOut, Cst.lexM, cm_nil, List.nil_append, List.append_nil, if_false, Bool.false_eq_true, ncm,
+        List.map_nil, kwText, if_true, hb'.2]
+      simp only [proj_append, hhl, hbl, kwWith]
+    | false =>
+      have hbt : ∀ (x : Bool), (if x = true then [Trivia.emptyLine] else []) = [] ∨
+          (if x = true then [Trivia.emptyLine] else []) = [Trivia.emptyLine] ∨
+          (if x = true then [Trivia.emptyLine] else []) = [Trivia.linebreak] := by
+        intro x; cases x
+        · exact Or.inl rfl
+        · exact Or.inr (Or.inl rfl)
+      have hsh : asrtFromCst he be [] g1 [] g2 [] g3 =
+          .asrt he (if (if gapHasEmptyLine g3 = true then [Trivia.emptyLine] else []).isEmpty then be
+            else be.setBefore ((if gapHasEmptyLine g3 = true then [Trivia.emptyLine] else []) ++ be.before))
+            (appendGapTrivia [] g1) [] [] [] := by
+        unfold asrtFromCst
+        simp only [collectTrivia, collectGo, List.isEmpty_nil, Bool.not_true, Bool.false_and, Bool.false_eq_true,
+          if_false, if_true, Bool.true_and]
+        cases gapHasEmptyLine g3 <;> simp [splitInline]
+      have hb' := hbody _ (hbt (gapHasEmptyLine g3))
+      have hcm : cm (appendGapTrivia [] g1) = [] := by
+        rcases appendGapTrivia_cases g1 with e | e | e <;> rw [e] <;> rfl
+      have hparse : (Cst.kw false [] g1 h [] g2 [] g3 b).parse =
+          .ok (.asrt he (if (if gapHasEmptyLine g3 = true then [Trivia.emptyLine] else []).isEmpty then be
+            else be.setBefore ((if gapHasEmptyLine g3 = true then [Trivia.emptyLine] else []) ++ be.before))
+            (appendGapTrivia [] g1) [] [] []) := by
+        simp only [Cst.parse, hph, hpb, Bool.false_eq_true, if_false, hsh]
+      refine ⟨_, hparse, ⟨hhok, hb'.1, hcm, rfl, trivOk_nil, trivOk_nil⟩, rfl, rfl, ?_, rfl⟩
+      simp only [Expr.lexOut, Cst.lexM, cm_nil, List.nil_append, List.append_nil, if_false, Bool.false_eq_true, ncm,
+        List.map_nil, kwText, hb'.2]
+      simp only [proj_append, hhl, hbl, kwAssert]
+  | .sel e c1 g1 gd attrs, hwf, hord => by
+    simp only [Cst.wf, Bool.and_eq_true, List.isEmpty_iff, Bool.not_eq_true', List.isEmpty_eq_false_iff] at hwf
+    obtain ⟨⟨⟨⟨⟨hew, hc1⟩, _⟩, _⟩, hne⟩, hall⟩ := hwf
+    subst hc1
+    obtain ⟨ee, hpe, heok, _, _, hel, _⟩ := cst_parse_spec strict e hew (fun hs => by simpa [Cst.orderOk] using hord hs)
+    have hsol : ∀ x ∈ attrs, solidT x := by
+      intro x hx
+      have := (List.all_eq_true.mp hall) x hx
+      simp only [attrSegOk, Bool.and_eq_true, Bool.not_eq_true', List.isEmpty_eq_false_iff] at this
+      refine ⟨this.1.1.1, ?_⟩
+      have hl := getLast?_ne_nl_of_no_nl _ this.1.1.2
+      simp [endsWithNL, hl]
+    refine ⟨.sel ee attrs g1 (collectTrivia [] g1) [] [], by simp only [Cst.parse, hpe],
+      ⟨heok, hne, hsol, by simp [collectTrivia, collectGo], trivOk_nil, trivOk_nil⟩, rfl, rfl, ?_, rfl⟩
+    simp only [Expr.lexOut, Cst.lexM, cm_nil, List.nil_append, List.append_nil, if_false, Bool.false_eq_true, ncm, List.map_nil]
+    simp only [proj_append, hel]
+  | .selOr e c1 g1 gd attrs c2 g2 g3 d, hwf, hord => by
+    simp only [Cst.wf, Bool.and_eq_true, List.isEmpty_iff, Bool.not_eq_true', List.isEmpty_eq_false_iff] at hwf
+    obtain ⟨⟨⟨⟨⟨⟨⟨⟨⟨hew, hc1⟩, _⟩, _⟩, hne⟩, hall⟩, hc2⟩, _⟩, _⟩, hdw⟩ := hwf
+    subst hc1; subst hc2
+    have hord' : strict = true → e.orderOk = true ∧ d.orderOk = true := by
+      intro hs
+      have := hord hs
+      simpa [Cst.orderOk] using this
+    obtain ⟨ee, hpe, heok, _, _, hel, _⟩ := cst_parse_spec strict e hew (fun hs => (hord' hs).1)
+    obtain ⟨de, hpd, hdok, _, _, hdl, _⟩ := cst_parse_spec strict d hdw (fun hs => (hord' hs).2)
+    have hsol : ∀ x ∈ attrs, solidT x := by
+      intro x hx
+      have := (List.all_eq_true.mp hall) x hx
+      simp only [attrSegOk, Bool.and_eq_true, Bool.not_eq_true', List.isEmpty_eq_false_iff] at this
+      refine ⟨this.1.1.1, ?_⟩
+      have hl := getLast?_ne_nl_of_no_nl _ this.1.1.2
+      simp [endsWithNL, hl]
+    refine ⟨.selOr ee attrs g1 (collectTrivia [] g1) de g2 (collectTrivia [] g2) [] [], by simp only [Cst.parse, hpe, hpd],
+      ⟨heok, hne, hsol, by simp [collectTrivia, collectGo], hdok, by simp [collectTrivia, collectGo], trivOk_nil, trivOk_nil⟩,
+      rfl, rfl, ?_, rfl⟩
+    simp only [Expr.lexOut, Cst.lexM, cm_nil, List.nil_append, List.append_nil, if_false, Bool.false_eq_true, ncm, List.map_nil]
+    rw [show e.lexM ++ attrLex attrs ++ Lex.tok ['o', 'r'] :: d.lexM = e.lexM ++ attrLex attrs ++ [Lex.tok ['o', 'r']] ++ d.lexM
+      from by simp]
+    simp only [proj_append, hel, hdl]
+  | .lam n c1 g1 c2 g2 b, hwf, hord => by
+    simp only [Cst.wf, Bool.and_eq_true, List.isEmpty_iff] at hwf
+    obtain ⟨⟨⟨⟨⟨hn, hc1⟩, _⟩, hc2⟩, _⟩, hbw⟩ := hwf
+    subst hc1; subst hc2
+    obtain ⟨be, hpb, hbok, hbb, _, hbl, _⟩ := cst_parse_spec strict b hbw (fun hs => by simpa [Cst.orderOk] using hord hs)
+    have hsn : solidT n := by
+      simp only [lamNameOk, Bool.and_eq_true, Bool.not_eq_true', List.isEmpty_eq_false_iff] at hn
+      exact ⟨hn.1, endsWithNL_false_of_all _ hn.2 (by decide)⟩
+    have hrep : ∀ (k : Nat), TrivOk (List.replicate k Trivia.emptyLine) ∧ cm (List.replicate k Trivia.emptyLine) = [] := by
+      intro k
+      induction k with
+      | zero => exact ⟨trivOk_nil, rfl⟩
+      | succ k ih =>
+        rw [List.replicate_succ]
+        exact ⟨trivOk_append (a := [Trivia.emptyLine]) trivOk_emptyLine ih.1, by rw [cm_emptyLine]; exact ih.2⟩
+    have hbody : (if (List.replicate (g2.count '\n' - 1) Trivia.emptyLine).isEmpty then be
+          else be.setBefore (List.replicate (g2.count '\n' - 1) Trivia.emptyLine ++ be.before)).ok ∧
+        (if (List.replicate (g2.count '\n' - 1) Trivia.emptyLine).isEmpty then be
+          else be.setBefore (List.replicate (g2.count '\n' - 1) Trivia.emptyLine ++ be.before)).lexOut false = be.lexOut false := by
+      split
+      · exact ⟨hbok, rfl⟩
+      · refine ⟨ok_setBefore hbok (by rw [hbb, List.append_nil]; exact (hrep _).1), ?_⟩
+        rw [lexOut_setBefore be hbb, hbb, List.append_nil, (hrep _).2]; rfl
+    refine ⟨lamFromCst n [] g1 g2 be, by simp only [Cst.parse, hpb],
+      ⟨hsn, by simp [collectTrivia, collectGo], hbody.1, trivOk_nil, trivOk_nil⟩, rfl, rfl, ?_, rfl⟩
+    simp only [lamFromCst, Expr.lexOut, Cst.lexM, cm_nil, List.nil_append, List.append_nil, if_false, Bool.false_eq_true, ncm,
+      List.map_nil, hbody.2]
+    rw [show ([Lex.tok n, Lex.tok [':']] : List Lex) = [Lex.tok n] ++ [Lex.tok [':']] from rfl]
+    simp only [proj_append, hbl]
+  | .un op c g e, hwf, hord => by
+    simp only [Cst.wf, Bool.and_eq_true, List.isEmpty_iff] at hwf
+    obtain ⟨⟨⟨hop, hc⟩, _⟩, hew⟩ := hwf
+    subst hc
+    obtain ⟨ee, hpe, heok, _, _, hel, _⟩ := cst_parse_spec strict e hew (fun hs => by simpa [Cst.orderOk] using hord hs)
+    have hsop : solidT op ∧ op ≠ ['+', '+'] := by
+      simp only [unOpOk, Bool.or_eq_true, beq_iff_eq] at hop
+      rcases hop with h | h <;> subst h <;> exact ⟨⟨by simp, by simp [endsWithNL]⟩, by simp⟩
+    refine ⟨.un op ee g (collectTrivia [] g) [] [], by simp only [Cst.parse, hpe],
+      ⟨hsop, heok, by simp [collectTrivia, collectGo], trivOk_nil, trivOk_nil⟩, rfl, rfl, ?_, rfl⟩
+    simp only [Expr.lexOut, Cst.lexM, cm_nil, List.nil_append, List.append_nil, if_false, Bool.false_eq_true, ncm, List.map_nil]
+    simp only [proj_append, hel]
+  | .bin l c1 g1 op c2 g2 r, hwf, hord => by
+    simp only [Cst.wf, Bool.and_eq_true, List.isEmpty_iff] at hwf
+    obtain ⟨⟨⟨⟨⟨⟨⟨hlw, hc1⟩, _⟩, hop⟩, _⟩, hc2⟩, _⟩, hrw⟩ := hwf
+    subst hc1; subst hc2
+    have hord' : strict = true → l.orderOk = true ∧ r.orderOk = true := by
+      intro hs
+      have := hord hs
+      simpa [Cst.orderOk] using this
+    obtain ⟨le, hpl, hlok, _, _, hll, _⟩ := cst_parse_spec strict l hlw (fun hs => (hord' hs).1)
+    obtain ⟨re, hpr, hrok, _, _, hrl, _⟩ := cst_parse_spec strict r hrw (fun hs => (hord' hs).2)
+    have hsop : solidT op := by
+      simp only [binOpOk, List.any_cons, List.any_nil, Bool.or_false, Bool.or_eq_true, beq_iff_eq] at hop
+      rcases hop with h | h | h | h | h | h | h | h | h | h | h | h | h | h | h <;> subst h <;>
+        exact ⟨by simp, by simp [endsWithNL]⟩
+    refine ⟨.bin op le re (g1.count '\n') (g2.count '\n') [] [], by simp only [Cst.parse, hpl, hpr],
+      ⟨hsop, hlok, hrok, trivOk_nil, trivOk_nil⟩, rfl, rfl, ?_, rfl⟩
+    simp only [Expr.lexOut, Cst.lexM, cm_nil, List.nil_append, List.append_nil, if_false, Bool.false_eq_true, ncm, List.map_nil]
+    simp only [proj_append, hll, hrl]
 theorem items_parse_spec (strict : Bool) : (its : Items) → ∀ (m : Mode) (cg : Text) (st : SeqSt) (pend : Bool),
     its.wf m cg = true → StOk st →
-    (strict = true → its.orderOk m st.prev pend (!st.items.isEmpty) = true ∧ (pend = false → cm st.before = [])) →
-    ∃ st', its.parseSeq m st = .ok st' ∧ StOk st' ∧ proj strict (seqLex st') = proj strict (seqLex st ++ its.lexM)
-  | .nil, m, cg, st, pend, _, hst, _ => ⟨st, rfl, hst, by simp [Items.lexM]⟩
+    (strict = true → its.orderOk m st.prev pend (!st.items.isEmpty) = true ∧ (pend = false → cm st.before = []) ∧
+      (lastAsrt st.items = true → its.noCmt = true ∧ cm st.before = [])) →
+    ∃ st', its.parseSeq m st = .ok st' ∧ StOk st' ∧ proj strict (seqLex st') = proj strict (seqLex st ++ its.lexM) ∧
+      (strict = true → lastAsrt st'.items = true → cm st'.before = [])
+  | .nil, m, cg, st, pend, _, hst, hord =>
+    ⟨st, rfl, hst, by simp [Items.lexM], fun hs hl => ((hord hs).2.2 hl).2⟩
   | .cmt g t rest, m, cg, st, pend, hwf, hst, hord => by
     simp only [Items.wf, Bool.and_eq_true] at hwf
     obtain ⟨⟨⟨_, htok⟩, _⟩, hrest⟩ := hwf
+    have hla : strict = true → lastAsrt st.items = false := by
+      intro hs
+      cases hl : lastAsrt st.items with
+      | false => rfl
+      | true => have := ((hord hs).2.2 hl).1; simp [Items.noCmt] at this
     have hstep := seqComment_spec strict m st g t htok hst pend (fun hs => by
       have ho := hord hs
-      refine ⟨ho.2, fun hin => ?_⟩
+      refine ⟨ho.2.1, fun hin => ?_⟩
       have h1 := ho.1
       simp only [Items.orderOk] at h1
       rw [← canInline_eq, hin] at h1
       simp only [if_true, Bool.and_eq_true, Bool.not_eq_true'] at h1
-      exact h1.1)
-    obtain ⟨hok', hlex', hprev, hemp, hcmeq⟩ := hstep
+      exact h1.1) hla
+    obtain ⟨hok', hlex', hprev, hemp, hcmeq, hlast⟩ := hstep
     by_cases hin : canInline m st g = true
-    · obtain ⟨st', hp, hst', hl⟩ := items_parse_spec strict rest m cg (seqComment m st g t) pend hrest hok'
+    · obtain ⟨st', hp, hst', hl, hfin⟩ := items_parse_spec strict rest m cg (seqComment m st g t) pend hrest hok'
         (fun hs => by
           have ho := hord hs
           have h1 := ho.1
@@ -862,11 +1155,12 @@ theorem items_parse_spec (strict : Bool) : (its : Items) → ∀ (m : Mode) (cg 
           rw [← canInline_eq, hin] at h1
           simp only [if_true, Bool.and_eq_true, Bool.not_eq_true'] at h1
           rw [hprev, hemp]
-          exact ⟨h1.2, fun hp => by rw [hcmeq hin]; exact ho.2 hp⟩)
-      refine ⟨st', by simp only [Items.parseSeq, hp], hst', ?_⟩
+          refine ⟨h1.2, fun hp => by rw [hcmeq hin]; exact ho.2.1 hp, fun hl => ?_⟩
+          rw [hlast, hla hs] at hl; cases hl)
+      refine ⟨st', by simp only [Items.parseSeq, hp], hst', ?_, hfin⟩
       rw [hl, proj_append, hlex', Items.lexM, proj_append, proj_append, proj_cons strict (normCmt t) rest.lexM]
       simp [List.append_assoc]
-    · obtain ⟨st', hp, hst', hl⟩ := items_parse_spec strict rest m cg (seqComment m st g t) true hrest hok'
+    · obtain ⟨st', hp, hst', hl, hfin⟩ := items_parse_spec strict rest m cg (seqComment m st g t) true hrest hok'
         (fun hs => by
           have ho := hord hs
           have h1 := ho.1
@@ -876,17 +1170,18 @@ theorem items_parse_spec (strict : Bool) : (its : Items) → ∀ (m : Mode) (cg 
           rw [hin'] at h1
           simp only [Bool.false_eq_true, if_false] at h1
           rw [hprev, hemp]
-          exact ⟨h1, fun hp => by cases hp⟩)
-      refine ⟨st', by simp only [Items.parseSeq, hp], hst', ?_⟩
+          refine ⟨h1, (fun hp => by cases hp), fun hl => ?_⟩
+          rw [hlast, hla hs] at hl; cases hl)
+      refine ⟨st', by simp only [Items.parseSeq, hp], hst', ?_, hfin⟩
       rw [hl, proj_append, hlex', Items.lexM, proj_append, proj_append, proj_cons strict (normCmt t) rest.lexM]
       simp [List.append_assoc]
   | .elem g c rest, m, cg, st, pend, hwf, hst, hord => by
     simp only [Items.wf, Bool.and_eq_true, bne_iff_ne, ne_eq] at hwf
     obtain ⟨⟨⟨hm, _⟩, hc⟩, hrest⟩ := hwf
-    obtain ⟨e, hpe, heok, heb, hea, hel⟩ := cst_parse_spec strict c hc (fun hs => by
+    obtain ⟨e, hpe, heok, heb, hea, hel, hasrt⟩ := cst_parse_spec strict c hc (fun hs => by
       have h1 := (hord hs).1
       simp only [Items.orderOk, Bool.and_eq_true] at h1
-      exact h1.1)
+      exact h1.1.1)
     have hb' := pushGap_ok hst.2 g
     have hnew : StOk { items := st.items ++ [e.setBefore (pushGap st g)], before := [], prev := .item } :=
       ⟨allOk_append hst.1 (allOk_single (ok_setBefore heok hb')), trivOk_nil⟩
@@ -895,36 +1190,40 @@ theorem items_parse_spec (strict : Bool) : (its : Items) → ∀ (m : Mode) (cg 
       simp only [seqLex, lexOutAll_append, lexOutAll_single, lexOut_setBefore e heb, pushGap_cm, cm_nil,
         List.append_nil, proj_append, hel]
       simp [List.append_assoc]
-    obtain ⟨st', hp, hst', hl⟩ := items_parse_spec strict rest m cg
+    obtain ⟨st', hp, hst', hl, hfin⟩ := items_parse_spec strict rest m cg
       { items := st.items ++ [e.setBefore (pushGap st g)], before := [], prev := .item } false hrest hnew
       (fun hs => by
         have h1 := (hord hs).1
-        simp only [Items.orderOk, Bool.and_eq_true] at h1
+        simp only [Items.orderOk, Bool.and_eq_true, Bool.or_eq_true, Bool.not_eq_true'] at h1
         rw [nonempty_append_single]
-        exact ⟨h1.2, fun _ => rfl⟩)
+        refine ⟨h1.2, fun _ => rfl, fun hl => ?_⟩
+        rw [lastAsrt_append_single, isAsrtE_setBefore, hasrt] at hl
+        rcases h1.1.2 with h2 | h2
+        · rw [hl] at h2; cases h2
+        · exact ⟨h2, rfl⟩)
     cases m with
     | set => exact absurd rfl hm
     | file =>
-      refine ⟨st', ?_, hst', ?_⟩
+      refine ⟨st', ?_, hst', ?_, hfin⟩
       · simp only [Items.parseSeq, hpe, heb, List.append_nil]; exact hp
       · rw [hl, proj_append, hlexnew, Items.lexM]; simp [proj_append]
     | paren =>
-      refine ⟨st', ?_, hst', ?_⟩
+      refine ⟨st', ?_, hst', ?_, hfin⟩
       · simp only [Items.parseSeq, hpe, heb, List.append_nil]; exact hp
       · rw [hl, proj_append, hlexnew, Items.lexM]; simp [proj_append]
     | list =>
-      refine ⟨st', ?_, hst', ?_⟩
+      refine ⟨st', ?_, hst', ?_, hfin⟩
       · simp only [Items.parseSeq, hpe]; exact hp
       · rw [hl, proj_append, hlexnew, Items.lexM]; simp [proj_append]
   | .bind g n c1 g1 c2 g2 v c3 g3 rest, m, cg, st, pend, hwf, hst, hord => by
     simp only [Items.wf, Bool.and_eq_true, beq_iff_eq] at hwf
     obtain ⟨⟨⟨⟨⟨⟨⟨⟨⟨⟨hm, _⟩, hn⟩, h1⟩, _⟩, h2⟩, _⟩, hv⟩, h3⟩, _⟩, hrest⟩ := hwf
     subst hm
-    obtain ⟨ve, hpv, hveok, hvb, hva, hvl⟩ := cst_parse_spec strict v hv (fun hs => by
+    obtain ⟨ve, hpv, hveok, hvb, hva, hvl, _⟩ := cst_parse_spec strict v hv (fun hs => by
       have h1 := (hord hs).1
       simp only [Items.orderOk, Bool.and_eq_true] at h1
       exact h1.1)
-    obtain ⟨b, hb, hbok, hbl⟩ := binding_spec (g1 := g1) (g2 := g2) (g3 := g3) hn h1 h2 h3 hveok hvb hva (pushGap_ok hst.2 g)
+    obtain ⟨b, hb, hbok, hbl, hbna⟩ := binding_spec (g1 := g1) (g2 := g2) (g3 := g3) hn h1 h2 h3 hveok hvb hva (pushGap_ok hst.2 g)
     have hnew : StOk { items := st.items ++ [b], before := [], prev := .item } :=
       ⟨allOk_append hst.1 (allOk_single hbok), trivOk_nil⟩
     have hlexnew : proj strict (seqLex { items := st.items ++ [b], before := [], prev := .item })
@@ -936,14 +1235,15 @@ theorem items_parse_spec (strict : Bool) : (its : Items) → ∀ (m : Mode) (cg 
       rw [show (Lex.tok n :: Lex.tok ['='] :: ncm c1 ++ ncm c2 ++ v.lexM ++ Lex.tok [';'] :: ncm c3) =
         [Lex.tok n, Lex.tok ['=']] ++ ncm c1 ++ ncm c2 ++ v.lexM ++ ([Lex.tok [';']] ++ ncm c3) from by simp]
       simp only [proj_append, hvl, List.append_assoc]
-    obtain ⟨st', hp, hst', hl⟩ := items_parse_spec strict rest .set cg
+    obtain ⟨st', hp, hst', hl, hfin⟩ := items_parse_spec strict rest .set cg
       { items := st.items ++ [b], before := [], prev := .item } false hrest hnew
       (fun hs => by
         have h1 := (hord hs).1
         simp only [Items.orderOk, Bool.and_eq_true] at h1
         rw [nonempty_append_single]
-        exact ⟨h1.2, fun _ => rfl⟩)
-    refine ⟨st', ?_, hst', ?_⟩
+        refine ⟨h1.2, fun _ => rfl, fun hl => ?_⟩
+        rw [lastAsrt_append_single, hbna] at hl; cases hl)
+    refine ⟨st', ?_, hst', ?_, hfin⟩
     · simp only [Items.parseSeq, hpv, hb]; exact hp
     · rw [hl, proj_append, hlexnew, Items.lexM]
       simp only [proj_append]
@@ -959,9 +1259,9 @@ end
 theorem file_parse_spec (strict : Bool) (f : File) (hwf : f.wf = true) (hord : strict = true → f.orderOk = true) :
     ∃ s, f.parse = .ok s ∧ s.ok ∧ proj strict s.lexOut = proj strict f.items.lexM := by
   simp only [File.wf, Bool.and_eq_true] at hwf
-  obtain ⟨st', hp, hst', hl⟩ := items_parse_spec strict f.items .file f.endGap {} false hwf.1.1
-    ⟨trivial, trivOk_nil⟩ (fun hs => ⟨by simpa [File.orderOk] using hord hs, fun _ => rfl⟩)
-  have hf := finishSeq_spec hst' none (!f.items.isNil)
+  obtain ⟨st', hp, hst', hl, hfin⟩ := items_parse_spec strict f.items .file f.endGap {} false hwf.1.1
+    ⟨trivial, trivOk_nil⟩ (fun hs => ⟨by simpa [File.orderOk] using hord hs, fun _ => rfl, fun h => by cases h⟩)
+  have hf := finishSeq_spec strict hst' none (!f.items.isNil) hfin
   refine ⟨{ exprs := (finishSeq st' none (!f.items.isNil)).1,
             trailing := appendGapTriviaOff (finishSeq st' none (!f.items.isNil)).2 f.endGap }, ?_, ?_, ?_⟩
   · simp only [File.parse, hp]
@@ -1035,6 +1335,39 @@ theorem cst_toks_lexM : (c : Cst) → toksL c.lexM = toksL c.lex
     simp only [toksL_append, this]
   | .app f cs _ a => by
     simp only [Cst.lexM, Cst.lex, toksL_append, toksL_ncm, toksL_lexGC, cst_toks_lexM f, cst_toks_lexM a]
+  | .kw w c1 _ h c2 _ c3 _ b => by
+    simp only [Cst.lexM, Cst.lex]
+    rw [show (Lex.tok (kwText w) :: ncm c1 ++ h.lexM ++ ncm c2 ++ Lex.tok [';'] :: ncm c3 ++ b.lexM) =
+        [Lex.tok (kwText w)] ++ ncm c1 ++ h.lexM ++ ncm c2 ++ [Lex.tok [';']] ++ ncm c3 ++ b.lexM from by simp,
+      show (Lex.tok (kwText w) :: lexGC c1 ++ h.lex ++ lexGC c2 ++ Lex.tok [';'] :: lexGC c3 ++ b.lex) =
+        [Lex.tok (kwText w)] ++ lexGC c1 ++ h.lex ++ lexGC c2 ++ [Lex.tok [';']] ++ lexGC c3 ++ b.lex from by simp]
+    simp only [toksL_append, toksL_ncm, toksL_lexGC, cst_toks_lexM h, cst_toks_lexM b]
+  | .sel e c1 _ _ attrs => by
+    simp only [Cst.lexM, Cst.lex, toksL_append, toksL_ncm, toksL_lexGC, cst_toks_lexM e]
+  | .selOr e c1 _ _ attrs c2 _ _ d => by
+    simp only [Cst.lexM, Cst.lex]
+    rw [show e.lexM ++ ncm c1 ++ attrLex attrs ++ ncm c2 ++ Lex.tok ['o', 'r'] :: d.lexM =
+        e.lexM ++ ncm c1 ++ attrLex attrs ++ ncm c2 ++ [Lex.tok ['o', 'r']] ++ d.lexM from by simp,
+      show e.lex ++ lexGC c1 ++ attrLex attrs ++ lexGC c2 ++ Lex.tok ['o', 'r'] :: d.lex =
+        e.lex ++ lexGC c1 ++ attrLex attrs ++ lexGC c2 ++ [Lex.tok ['o', 'r']] ++ d.lex from by simp]
+    simp only [toksL_append, toksL_ncm, toksL_lexGC, cst_toks_lexM e, cst_toks_lexM d]
+  | .lam n c1 _ c2 _ b => by
+    simp only [Cst.lexM, Cst.lex]
+    rw [show Lex.tok n :: ncm c1 ++ Lex.tok [':'] :: ncm c2 ++ b.lexM = [Lex.tok n] ++ ncm c1 ++ [Lex.tok [':']] ++ ncm c2 ++ b.lexM
+        from by simp,
+      show Lex.tok n :: lexGC c1 ++ Lex.tok [':'] :: lexGC c2 ++ b.lex = [Lex.tok n] ++ lexGC c1 ++ [Lex.tok [':']] ++ lexGC c2 ++ b.lex
+        from by simp]
+    simp only [toksL_append, toksL_ncm, toksL_lexGC, cst_toks_lexM b, toksL_tok, toksL_nil]
+  | .un op c _ e => by
+    simp only [Cst.lexM, Cst.lex]
+    rw [show Lex.tok op :: ncm c ++ e.lexM = [Lex.tok op] ++ ncm c ++ e.lexM from by simp,
+      show Lex.tok op :: lexGC c ++ e.lex = [Lex.tok op] ++ lexGC c ++ e.lex from by simp]
+    simp only [toksL_append, toksL_ncm, toksL_lexGC, cst_toks_lexM e]
+  | .bin l c1 _ op c2 _ r => by
+    simp only [Cst.lexM, Cst.lex]
+    rw [show l.lexM ++ ncm c1 ++ Lex.tok op :: ncm c2 ++ r.lexM = l.lexM ++ ncm c1 ++ [Lex.tok op] ++ ncm c2 ++ r.lexM from by simp,
+      show l.lex ++ lexGC c1 ++ Lex.tok op :: lexGC c2 ++ r.lex = l.lex ++ lexGC c1 ++ [Lex.tok op] ++ lexGC c2 ++ r.lex from by simp]
+    simp only [toksL_append, toksL_ncm, toksL_lexGC, cst_toks_lexM l, cst_toks_lexM r]
 theorem items_toks_lexM : (its : Items) → toksL its.lexM = toksL its.lex
   | .nil => rfl
   | .cmt _ t rest => by
